@@ -156,6 +156,7 @@ func prop(t *rapid.T) {
 		o.Caching = true
 		o.CacheCap = rapid.IntRange(0, 3).Draw(t, "cap")
 	}
+	o.Order = model.GenOrder(t)
 	c.customNF = rapid.Bool().Draw(t, "customNF")
 	c.customNA = rapid.Bool().Draw(t, "customNA")
 	tc := model.TableCfg{MaxRoutes: ev.Pick(6, 10), Gen: model.GenCfg{MaxSegs: 3, RichLits: false}, Fallback: true}
